@@ -23,6 +23,7 @@
 //       0                                           unused
 //       1/<ty>/<min>/<max>/<scale>/<gain>/<off>/<cp1>/<cp3>   (f32 bit patterns)
 #include "hcommon.h"
+#include <cmath>
 #define private public
 #include <rtosc/automations.h>
 #undef private
@@ -53,6 +54,28 @@ int main()
     std::string line;
     while(std::getline(std::cin, line)) {
         auto f = split(line, ' ');
+        if(f.size() >= 3 && f[0] == "orc") {
+            // evidence for the oracle hypotheses of the log-scale theorems on this libm:
+            //   orc <x bits,...> <y bits,...>  ->  L=<logf x>/<expf(logf x)>;...  E=<expf y>;...
+            std::ostringstream o;
+            o << "L=";
+            bool first = true;
+            for(auto &b : split(f[1], ',')) {
+                float x = bitsf(b), l = logf(x), e = expf(l);
+                if(!first) o << ";";
+                first = false;
+                o << fbits(l) << "/" << fbits(e);
+            }
+            o << " E=";
+            first = true;
+            for(auto &b : split(f[2], ',')) {
+                if(!first) o << ";";
+                first = false;
+                o << fbits(expf(bitsf(b)));
+            }
+            puts(o.str().c_str());
+            continue;
+        }
         if(f.size() < 6 || f[0] != "auto") { puts("BADCASE"); continue; }
         int nslots = atoi(f[1].c_str()), per = atoi(f[2].c_str());
         ParamStore ps;
